@@ -526,22 +526,44 @@ structure Parser where
 
 def usym (n : List Char) : Sym := ⟨n, []⟩
 
+/-- `n = rest ++ "__S" ++ digits` where `digits` is what `f"{g:02}"` prints for some `g` -/
+def splitSuffix (n : List Char) : Option (List Char × Nat) :=
+  let r := n.reverse
+  match r.dropWhile Char.isDigit with
+  | 'S' :: '_' :: '_' :: base =>
+    let ds := (r.takeWhile Char.isDigit).reverse
+    let g := ds.foldl (fun acc c => acc * 10 + (c.toNat - 48)) 0
+    if pad2 g = ds then some (base.reverse, g) else none
+  | _ => none
+
+def parseSymAux : Nat → List Char → Sym
+  | 0, n => ⟨n, []⟩
+  | fuel + 1, n =>
+    match splitSuffix n with
+    | some (rest, g) => (parseSymAux fuel rest).suf g
+    | none => ⟨n, []⟩
+
+/-- the symbol a Python name denotes: a name of the shape `X__Snn` *is* the helper symbol the
+factorisation would create for `X` (the constructor only asserts that dictionary keys and terminals
+contain no `__`; a right-hand side may mention such a name) -/
+def parseSym (n : List Char) : Sym := parseSymAux n.length n
+
 /-- `_Tokenizer.get_all_token_names` -/
 def tokenNames (inp : CtorIn) : List Sym :=
-  let t0 := inp.groups.foldl (fun acc g => sadd acc (usym g)) []
-  let t1 := t0.filter fun t => (dget t.base inp.syn).isNone
-  let t2 := inp.syn.foldl (fun acc kv => sadd acc (usym kv.2)) t1
-  inp.kw.foldl (fun acc kv => sadd acc (usym kv.2)) t2
+  let t0 := inp.groups.foldl (fun acc g => sadd acc (parseSym g)) []
+  let t1 := t0.filter fun t => (dget t.name inp.syn).isNone
+  let t2 := inp.syn.foldl (fun acc kv => sadd acc (parseSym kv.2)) t1
+  inp.kw.foldl (fun acc kv => sadd acc (parseSym kv.2)) t2
 
 /-- `_create_productions`: one counter for `sort_n` over all productions -/
 def createProds : Nat → List (List Char × List (List (List Char))) → Prods Sym → Except Err (Prods Sym)
   | _, [], acc => .ok acc
   | n, (s, alts) :: rest, acc =>
     if hasDunder s then .error .assertion
-    else if (dget (usym s) acc).isSome then .error .assertion
+    else if (dget (parseSym s) acc).isSome then .error .assertion
     else
-      let rules := (numberFrom n alts).map fun (i, p) => (⟨p.map usym, i⟩ : Rule Sym)
-      createProds (n + alts.length) rest (acc ++ [(usym s, rules)])
+      let rules := (numberFrom n alts).map fun (i, p) => (⟨p.map parseSym, i⟩ : Rule Sym)
+      createProds (n + alts.length) rest (acc ++ [(parseSym s, rules)])
 
 /-- `_verify_grammar_structure_part1` -/
 def verifyPart1 (terms : List Sym) (start : Sym) (G : Prods Sym) : Except Err Unit :=
@@ -556,18 +578,22 @@ def verifyPart1 (terms : List Sym) (start : Sym) (G : Prods Sym) : Except Err Un
   else if startSym ∈ syms then .error .grammarError
   else .ok ()
 
+/-- `self.skip_tokens` -/
+def skipSet (inp : CtorIn) (terms0 : List Sym) : Except Err (List Sym) :=
+  match inp.skip with
+  | none => .ok ([usym "SPACE".toList, usym "COMMENT".toList].filter (fun t => decide (t ∈ terms0)))
+  | some l =>
+    let sk := l.foldl (fun acc t => sadd acc (parseSym t)) []
+    if sk.any (fun t => decide (t ∉ terms0)) then .error .grammarError else .ok sk
+
 def construct (inp : CtorIn) : Except Err Parser := do
   let terms0 := tokenNames inp
-  if terms0.any (fun t => hasDunder t.base) then .error .assertion else
-  let skip ← match inp.skip with
-    | none => (pure ([usym "SPACE".toList, usym "COMMENT".toList].filter (fun t => decide (t ∈ terms0))) : Except Err _)
-    | some l =>
-      let sk := l.foldl (fun acc t => sadd acc (usym t)) []
-      if sk.any (fun t => decide (t ∉ terms0)) then .error .grammarError else pure sk
+  if terms0.any (fun t => hasDunder t.name) then .error .assertion else
+  let skip ← skipSet inp terms0
   let U ← createProds 0 inp.prods []
   let (G, suffix) ← factorize terms0 U inp.smart
   let terms := sadd terms0 endSym
-  let start := usym inp.start
+  let start := parseSym inp.start
   verifyPart1 terms start G
   let nulls ← nullables G
   let first ← firstSets terms nulls G
@@ -594,7 +620,7 @@ def Parser.rename (P : Parser) (raw : List Char × List Char) : Tok Sym :=
   let n2 := match dget (n1, raw.2) P.kw with
     | some n => n
     | none => n1
-  ⟨usym n2, raw.2⟩
+  ⟨parseSym n2, raw.2⟩
 
 /-- the token list of `parse`: renamed lexemes without the skipped ones, then `$END$` -/
 def Parser.tokens (P : Parser) (raw : List (List Char × List Char)) : List (Tok Sym) :=
